@@ -158,9 +158,9 @@ def run(ctx):
             if not res.ok:
                 ctx.violation(f'C08:model:{p}:{res.violation}', {'program': p, 'cex_tail': res.cex[-2:]})
         if not ctx.quick:
-            res = mc_program(ctx, wd, 'main_mul2', 4, 1, fair=False, terminal=False, timeout=3000)
+            res = mc_program(ctx, wd, 'main_out', 4, 1, fair=False, terminal=False, timeout=1500)
             if not res.ok:
-                ctx.violation(f'C08:model:main_mul2@4:{res.violation}', {'cex_tail': res.cex[-2:]})
+                ctx.violation(f'C08:model:main_out@4:{res.violation}', {'cex_tail': res.cex[-2:]})
         neg = mc_program(ctx, wd, 'main_bad', 3, 1, fair=False, terminal=False)
         if neg.ok or neg.violation != 'LabelAgreement':
             ctx.machinery(f'negative control main_bad did not violate LabelAgreement ({neg.violation})')
@@ -170,7 +170,7 @@ def run(ctx):
         from ..sim.world import load_mpyc
         load_mpyc()
         asyncoro = sys.modules['mpyc.asyncoro']
-        nsched = 12 if ctx.quick else 60
+        nsched = 12 if ctx.quick else 30
         for p in progs:
             if p not in MIRRORS or not results[p].ok:
                 continue
@@ -178,7 +178,7 @@ def run(ctx):
             if pred is None:
                 ctx.violation(f'C08:model:{p}:terminal-state-not-unique', {'distinct_terminal_states': nterm})
                 continue
-            behs = sim_behaviours(ctx, wd, p, 3, 1, 6 if ctx.quick else 30, ctx.seed + 1)
+            behs = sim_behaviours(ctx, wd, p, 3, 1, 6 if ctx.quick else 15, ctx.seed + 1)
             outs = set()
             scheds = [('random', lambda s=s: RandomScheduler(ctx.seed * 1000 + s)) for s in range(nsched)]
             scheds += schedulers(3, ctx.seed, ctx.quick)
@@ -213,9 +213,9 @@ def run(ctx):
 
         # ---- 3. code -> spec ------------------------------------------------------------------
         names = QUICK if ctx.quick else list(CORPUS)
-        cfgs = [(3, 1), (2, 0), (4, 1)] if ctx.quick else [(2, 0), (3, 0), (3, 1), (4, 1), (5, 2), (5, 1)]
-        corpus_check(ctx, 'C08', names, cfgs, nrand=3 if ctx.quick else 10,
-                     budget_events=250000 if ctx.quick else 600000)
+        cfgs = [(3, 1), (2, 0), (4, 1)] if ctx.quick else [(2, 0), (3, 1), (4, 1), (5, 2)]
+        corpus_check(ctx, 'C08', names, cfgs, nrand=3 if ctx.quick else 5,
+                     budget_events=250000 if ctx.quick else 400000)
         ctx.assumptions += ['_hop collisions do not occur (observed ones would be reported)',
                             'schedules are fair: every enabled action is eventually taken (finite delays)',
                             'PCSched steps any runnable task (superset of asyncio FIFO order)']
